@@ -5,6 +5,7 @@
 #include <thread>
 #include <mutex>
 #include <atomic>
+#include <functional>
 
 // ---------------------------------------------------------------- user-defined maps (stateful on purpose: sharing must be visible)
 // T = scale * (tau^2 + 1): positive for every tau, rational in tau (exact oracle), dT/dtau = 2 scale tau
@@ -252,8 +253,10 @@ struct IOpt
 struct Registry
 {
     std::map<long, std::shared_ptr<SqTimeMap>> tmaps;
-    std::map<long, std::shared_ptr<void>> smaps;     // LiftMap<DIM>, DIM known to the optimizer that uses it
+    // a user spatial map id stands for one LiftMap<DIM> per dimension that uses it (created on first use, all sharing the gain)
     std::map<long, double> smap_gain;
+    std::map<std::pair<long, int>, std::shared_ptr<void>> smaps;
+    std::map<std::pair<long, int>, std::function<void(double)>> smap_setters;
     std::map<long, std::shared_ptr<void>> wss;       // OBox::Workspace, typed by the optimizer family that created it
     std::map<long, std::string> ws_family;
 };
